@@ -84,8 +84,18 @@ def inner_new_under_contract(rep, prog, items):
     ]
     subst = {"stride": {("w",): 1}, "len": {("h", "w"): 1}}
 
+    def unchecked(t):
+        """the payload of `a.checked_sub(b)` on its Some edge is a - b"""
+        if not isinstance(t, tuple):
+            return t
+        if t[0] == "field" and isinstance(t[1], tuple) and t[1][0] == "downcast" and t[1][2] == "Some":
+            c_ = T.strip(t[1][1], refs=True, sites=True)
+            if c_[0] == "call" and c_[1].split(" => ")[0].endswith("::checked_sub"):
+                return ("bin", "Sub", unchecked(c_[2][0]), unchecked(c_[2][1]), "u32")
+        return tuple(unchecked(x) if isinstance(x, tuple) else x for x in t)
+
     def pol(x):
-        return certs.substitute(PL.poly(T.strip(x, refs=True), atoms), subst)
+        return certs.substitute(PL.poly(unchecked(T.strip(x, refs=True, sites=True)), atoms), subst)
     _seen, edges, _g, _s = P.inventory(prog, [inn])
     edges = [e for e in edges if e.body is inn]
     P.discharge_generic(edges, items)
@@ -97,6 +107,14 @@ def inner_new_under_contract(rep, prog, items):
         at = []
         opaque = False
         for d, taken in conds:
+            # `if let Some(k) = a.checked_sub(b)`: on the Some edge a >= b
+            ds_ = T.strip(d, refs=True, sites=True)
+            if ds_[0] == "bin" and ds_[1] in ("Eq", "Ne") and isinstance(ds_[2], tuple) and ds_[2][0] == "discr" and ds_[3][0] == "const":
+                c_ = T.strip(ds_[2][1], refs=True, sites=True)
+                if c_[0] == "call" and c_[1].split(" => ")[0].endswith("::checked_sub"):
+                    is_some = (ds_[1] == "Eq") == (int(ds_[3][2]) == 1)
+                    at.append(("Ge" if (is_some == bool(taken)) else "Lt", pol(c_[2][0]), pol(c_[2][1]), True))
+                    continue
             if d[0] == "bin" and d[1] in ("Le", "Lt", "Ge", "Gt", "Eq", "Ne"):
                 a, b = pol(d[2]), pol(d[3])
                 if any(any(s.startswith("?") for s in m) for m in list(a) + list(b)):
